@@ -463,6 +463,13 @@ def overwrite_order(x, fns):
     if "open_and_overwrite" not in fns:
         x.fail("anchor not found: fn open_and_overwrite in yash-semantics/src/redir.rs")
     body = fns["open_and_overwrite"][1]
+    if not re.search(r"\.\s*dup2\s*\(", body):
+        # one level of helper: the second half may live in a private function `open_and_overwrite` calls
+        cands = {n for n in re.findall(r"\b([a-z_][a-z_0-9]*)\s*\(", body)
+                 if n in fns and n != "open_and_overwrite" and re.search(r"\.\s*dup2\s*\(", fns[n][1])}
+        if len(cands) != 1:
+            x.fail("open_and_overwrite: no `.dup2(` in it nor in exactly one helper function of the file that it calls")
+        body = fns[cands.pop()][1]
     vm = re.search(r"\b([a-z_][a-z_0-9]*)\s*\.\s*as_fd\s*\(\s*\)", body)
     if not vm:
         x.fail("open_and_overwrite: cannot find `<spec>.as_fd()` — shape not understood")
